@@ -454,3 +454,251 @@ def search_parse_dec(drv, rng, budget):
                 return {"call": "UIntValue::parse_decimal", "input": {"digits": d, "type": ty}, "op": ["parse_dec", hx(d), hx(ty)],
                         "expected": exp, "observed": got}
     return None
+
+
+# ---------------------------------------------------------------- C07 structural layout
+def npo2(n):
+    p = 1
+    while p < n:
+        p *= 2
+    return p
+
+def split_at(n):
+    """documented rule: the right part holds the largest power of two strictly below n"""
+    return n - npo2(n) // 2
+
+UNIT = ("1",)
+def t_sum(a, b): return ("+", a, b)
+def t_prod(a, b): return ("*", a, b)
+BIT = t_sum(UNIT, UNIT)
+
+def t_word(bits):
+    return BIT if bits == 1 else t_prod(t_word(bits // 2), t_word(bits // 2))
+
+def t_seq(ts):
+    n = len(ts)
+    if n == 0: return UNIT
+    if n == 1: return ts[0]
+    h = split_at(n)
+    return t_prod(t_seq(ts[:h]), t_seq(ts[h:]))
+
+class Ty:
+    """Simfony type: kind in uN/bool/option/either/tuple/array/list"""
+    def __init__(self, kind, *args): self.kind, self.args = kind, args
+    def text(self):
+        k, a = self.kind, self.args
+        if k == "uint": return "u%d" % a[0]
+        if k == "bool": return "bool"
+        if k == "option": return "Option<%s>" % a[0].text()
+        if k == "either": return "Either<%s, %s>" % (a[0].text(), a[1].text())
+        if k == "tuple": return "(" + ", ".join(t.text() for t in a[0]) + ("," if len(a[0]) == 1 else "") + ")"
+        if k == "array": return "[%s; %d]" % (a[0].text(), a[1])
+        if k == "list": return "List<%s, %d>" % (a[0].text(), a[1])
+    def layout(self):
+        k, a = self.kind, self.args
+        if k == "uint": return t_word(a[0])
+        if k == "bool": return BIT
+        if k == "option": return t_sum(UNIT, a[0].layout())
+        if k == "either": return t_sum(a[0].layout(), a[1].layout())
+        if k == "tuple": return t_seq([t.layout() for t in a[0]])
+        if k == "array": return t_seq([a[0].layout()] * a[1])
+        if k == "list":
+            e, bound = a
+            if bound == 2: return t_sum(UNIT, e.layout())
+            half = bound // 2
+            return t_prod(t_sum(UNIT, t_seq([e.layout()] * half)), Ty("list", e, half).layout())
+
+def word_bits(t):
+    if t == BIT: return 1
+    if t[0] == "*" and t[1] == t[2]:
+        k = word_bits(t[1])
+        return 2 * k if k else None
+    return None
+
+def show_final(t, top=True):
+    """how simplicity-lang prints a finalized type"""
+    if t == UNIT: return "1"
+    wb = word_bits(t)
+    if wb: return "2" if wb == 1 else "2^%d" % wb
+    if t[0] == "+" and t[1] == UNIT:
+        return show_final(t[2], False) + "?"
+    s = show_final(t[1], False) + (" + " if t[0] == "+" else " × ") + show_final(t[2], False)
+    return s if top else "(" + s + ")"
+
+def gen_type(rng, depth):
+    r = rng.random()
+    if depth == 0 or r < 0.3:
+        return Ty("uint", rng.choice([1, 2, 4, 8, 16, 32, 64, 128, 256])) if rng.random() < 0.8 else Ty("bool")
+    if r < 0.4: return Ty("option", gen_type(rng, depth - 1))
+    if r < 0.5: return Ty("either", gen_type(rng, depth - 1), gen_type(rng, depth - 1))
+    if r < 0.7: return Ty("tuple", [gen_type(rng, depth - 1) for _ in range(rng.choice([0, 1, 2, 3, 4, 5, 6, 7, 9]))])
+    if r < 0.88: return Ty("array", gen_type(rng, depth - 1), rng.choice([0, 1, 2, 3, 4, 5, 6, 7, 8, 9, 11, 12, 13, 14, 15, 17, 19, 20, 24, 28]))
+    return Ty("list", gen_type(rng, depth - 1), rng.choice([2, 4, 8, 16, 32]))
+
+def gen_value(rng, ty):
+    """returns (text, compact bits) of a random value of the type"""
+    k, a = ty.kind, ty.args
+    if k == "uint":
+        v = rng.choice([0, 1, 2 ** a[0] - 1, rng.randrange(2 ** a[0])])
+        return str(v), format(v, "0%db" % a[0])
+    if k == "bool":
+        b = rng.random() < 0.5
+        return ("true" if b else "false"), ("1" if b else "0")
+    if k == "option":
+        if rng.random() < 0.4: return "None", "0"
+        t, b = gen_value(rng, a[0]); return "Some(%s)" % t, "1" + b
+    if k == "either":
+        if rng.random() < 0.5:
+            t, b = gen_value(rng, a[0]); return "Left(%s)" % t, "0" + b
+        t, b = gen_value(rng, a[1]); return "Right(%s)" % t, "1" + b
+    if k == "tuple":
+        vs = [gen_value(rng, t) for t in a[0]]
+        return "(" + ", ".join(v[0] for v in vs) + ("," if len(vs) == 1 else "") + ")", "".join(v[1] for v in vs)
+    if k == "array":
+        vs = [gen_value(rng, a[0]) for _ in range(a[1])]
+        return "[" + ", ".join(v[0] for v in vs) + "]", "".join(v[1] for v in vs)
+    if k == "list":
+        e, bound = a
+        n = rng.choice([0, 1, bound // 2, bound - 1, rng.randrange(bound)])
+        vs = [gen_value(rng, e) for _ in range(n)]
+        bits, rest, b = "", vs, bound
+        while b > 2:
+            h = b // 2
+            if len(rest) >= h:
+                bits += "1" + "".join(v[1] for v in rest[:h]); rest = rest[h:]
+            else:
+                bits += "0"
+            b = h
+        bits += ("1" + rest[0][1]) if rest else "0"
+        return "list![" + ", ".join(v[0] for v in vs) + "]", bits
+
+def shape(idx):
+    n = len(idx)
+    if n == 0: return ""
+    if n == 1: return "%d," % idx[0]
+    h = split_at(n)
+    return "(" + shape(idx[:h]) + shape(idx[h:]) + ")"
+
+def part_shape(idx, bound):
+    if bound == 2:
+        return "[%s:1]" % "".join("%d," % i for i in idx)
+    h = bound // 2
+    if len(idx) < h:
+        return "([:%d]%s)" % (h, part_shape(idx, h))
+    return "([%s:%d]%s)" % ("".join("%d," % i for i in idx[:h]), h, part_shape(idx[h:], h))
+
+
+@searcher("array/", "layout/")
+def search_layout(drv, rng, budget):
+    """BTreeSlice shapes for n = 0..300; Partition shapes for bounds 2..256, all lengths (sampled above 32); StructuralType of
+    ~150 random types (depth <= 2, tuple sizes <= 9, array sizes <= 28, list bounds <= 32) against the documented layout;
+    StructuralValue bits / typing / reconstruct / print-parse of random values; cast acceptance for type pairs"""
+    for n in list(range(0, 70)) + [96, 100, 127, 128, 129, 255, 256, 257, 300]:
+        got = drv.call("btree_shape", str(n)); exp = "ok " + shape(list(range(n)))
+        if got != exp:
+            return {"call": "BTreeSlice::fold shape", "input": {"n": n}, "op": ["btree_shape", str(n)], "expected": exp, "observed": got}
+    for bound in (2, 4, 8, 16, 32, 64, 128, 256):
+        for n in (range(bound) if bound <= 32 else sorted(set([0, 1, bound // 2 - 1, bound // 2, bound // 2 + 1, bound - 2, bound - 1] + [rng.randrange(bound) for _ in range(5)]))):
+            got = drv.call("partition_shape", str(n), str(bound))
+            exp = "ok %s complete=%s" % (part_shape(list(range(n)), bound), "true" if n == bound - 1 else "false")
+            if got != exp:
+                return {"call": "Partition::fold shape / is_complete", "input": {"len": n, "bound": bound}, "op": ["partition_shape", str(n), str(bound)], "expected": exp, "observed": got}
+    types = [Ty("array", Ty("uint", 8), n) for n in (0, 1, 2, 3, 5, 7, 11, 12, 13, 14, 15, 19, 20, 24, 28, 33)]
+    types += [Ty("list", Ty("uint", 8), b) for b in (2, 4, 8, 16, 32, 64)]
+    types += [gen_type(rng, 2) for _ in range(min(150, budget // 3))]
+    for ty in types:
+        got = drv.call("struct_type", hx(ty.text())); exp = "ok " + show_final(ty.layout())
+        if got != exp:
+            return {"call": "StructuralType::from(&ResolvedType)", "input": {"type": ty.text()}, "op": ["struct_type", hx(ty.text())], "expected": exp, "observed": got}
+    for ty in types[:: 2]:
+        for _ in range(2):
+            txt, bits = gen_value(rng, ty)
+            got = drv.call("struct_value", hx(txt), hx(ty.text()))
+            exp = "ok typed=true bits=%s reconstruct=true printparse=true" % bits
+            if not got.startswith(exp + " "):
+                return {"call": "StructuralValue::from(&Value) / Value::reconstruct / Display+parse", "input": {"value": txt, "type": ty.text()},
+                        "op": ["struct_value", hx(txt), hx(ty.text())], "expected": exp, "observed": got}
+    # casts: accepted exactly between equal layouts
+    small = [Ty("uint", 8), Ty("uint", 16), Ty("tuple", [Ty("uint", 8), Ty("uint", 8)]), Ty("array", Ty("uint", 8), 2), Ty("array", Ty("uint", 8), 3),
+             Ty("tuple", [Ty("uint", 8), Ty("tuple", [Ty("uint", 8), Ty("uint", 8)])]), Ty("tuple", [Ty("tuple", [Ty("uint", 8), Ty("uint", 8)]), Ty("uint", 8)]),
+             Ty("tuple", [Ty("uint", 16), Ty("uint", 8)]), Ty("tuple", [Ty("uint", 8), Ty("uint", 16)]), Ty("either", Ty("uint", 8), Ty("uint", 8)),
+             Ty("tuple", [Ty("bool"), Ty("uint", 8)]), Ty("option", Ty("uint", 1)), Ty("uint", 2), Ty("bool"), Ty("uint", 1), Ty("option", Ty("tuple", [])),
+             Ty("array", Ty("uint", 8), 12), Ty("tuple", [Ty("uint", 32), Ty("uint", 64)]), Ty("list", Ty("uint", 8), 2), Ty("option", Ty("uint", 8))]
+    pairs = [(s, t) for s in small for t in small]
+    rng.shuffle(pairs)
+    for s, t in pairs[: max(200, budget // 2)]:
+        vtxt, _ = gen_value(rng, s)
+        src = "fn main() {\n    let x: %s = %s;\n    let y: %s = <%s>::into(x);\n}\n" % (s.text(), vtxt, t.text(), s.text())
+        got = drv.call("run", hx(src), hx(""), hx(""), "0")
+        want_ok = s.layout() == t.layout()
+        # a rejected cast must be rejected by the front end ("Cannot cast values of type ..."), not by a later internal error
+        if (got == "ok") != want_ok or (not want_ok and not (got.startswith("compile-err") and "Cannot cast values of type" in got)):
+            return {"call": "cast <%s>::into to %s" % (s.text(), t.text()), "input": {"program": src}, "op": ["run", hx(src), hx(""), hx(""), "0"],
+                    "expected": "ok" if want_ok else "compile-err Cannot cast values of type ... (layouts differ)", "observed": got}
+    return None
+
+
+# ---------------------------------------------------------------- C11 literals through the text entry point
+def with_underscores(rng, digits):
+    out = ""
+    for ch in digits:
+        if rng.random() < 0.25: out += "_"
+        out += ch
+    if rng.random() < 0.3: out += "_"
+    return out
+
+
+@searcher("literal-text/")
+def search_literal_text(drv, rng, budget):
+    """Value::parse_from_str (pest grammar + literal parsers) at every uN: decimal / binary / hex literals of boundary and random
+    values with random `_` placement and leading zeros, digit-free forms, over-long digit strings, values that do not fit; hex at
+    [u8; n]; U256 Display against the mathematical decimal rendering; every printed integer parses back"""
+    for ty, bits in UINT_BITS.items():
+        M = 2 ** bits
+        vals = [0, 1, M - 1, M // 2, rng.randrange(M), rng.randrange(M)] + [10 ** k for k in range(0, 78, 11) if 10 ** k < M]
+        for v in vals:
+            forms = [(with_underscores(rng, str(v)), True), ("0" * rng.randint(1, 3) + str(v), True)]
+            forms.append(("0b" + with_underscores(rng, format(v, "0%db" % bits)), True))
+            if bits >= 8:
+                forms.append(("0x" + with_underscores(rng, format(v, "0%dx" % (bits // 4))), True))
+            for txt, ok in forms:
+                if txt.startswith("_"):
+                    txt = txt.lstrip("_") or "0"
+                got = drv.call("struct_value", hx(txt), hx(ty))
+                exp = "ok typed=true bits=%s reconstruct=true printparse=true" % format(v, "0%db" % bits)
+                if not got.startswith(exp + " "):
+                    return {"call": "Value::parse_from_str", "input": {"literal": txt, "type": ty}, "op": ["struct_value", hx(txt), hx(ty)], "expected": exp, "observed": got}
+        bad = [str(M), str(M + 1), str(M * 10), "0b" + "1" * (bits + 1), "0b" + "1" * max(bits - 1, 0), "0b_", "0x_",
+               "0x" + "f" * (bits // 4 + 1), "0x" + "f" * max(bits // 4 - 1, 0), "1" + "0" * 80]
+        if bits < 8:
+            bad += ["0x0", "0x00", "0x1"]
+        for txt in bad:
+            if txt in ("0b" + "1" * bits, "0b", "0x"):
+                continue      # `0b` / `0x` without any digit or `_` are not literal tokens of the grammar (Value::parse_from_str reads `0`)
+            if txt == "0x" + "f" * (bits // 4) and bits >= 8:
+                continue
+            got = drv.call("struct_value", hx(txt), hx(ty))
+            if not (got.startswith("value-err") or got.startswith("type-err")):
+                return {"call": "Value::parse_from_str", "input": {"literal": txt, "type": ty}, "op": ["struct_value", hx(txt), hx(ty)], "expected": "value-err (literal must be rejected)", "observed": got}
+    # a literal made only of separators contains no digit at all: rejected at every width (as a program literal)
+    for ty in UINT_BITS:
+        for lit in ("_", "__", "0b_", "0x_"):
+            src = "fn main() {\n    let x: %s = %s;\n}\n" % (ty, lit)
+            got = drv.call("run", hx(src), hx(""), hx(""), "0")
+            if not got.startswith("compile-err"):
+                return {"call": "program with a digit-free literal", "input": {"program": src}, "op": ["run", hx(src), hx(""), hx(""), "0"], "expected": "compile-err", "observed": got}
+    for n in (1, 2, 3, 5, 32):
+        bs = bytes(rng.randrange(256) for _ in range(n))
+        txt = "0x" + with_underscores(rng, bs.hex()).lstrip("_")
+        got = drv.call("struct_value", hx(txt), hx("[u8; %d]" % n))
+        exp = "ok typed=true bits=%s reconstruct=true printparse=true" % "".join(format(b, "08b") for b in bs)
+        if not got.startswith(exp + " "):
+            return {"call": "Value::parse_from_str", "input": {"literal": txt, "type": "[u8; %d]" % n}, "op": ["struct_value", hx(txt), hx("[u8; %d]" % n)], "expected": exp, "observed": got}
+    M = 2 ** 256
+    vals = [0, 1, 9, 10, 255, 256, 10 ** 18, 10 ** 19, 10 ** 19 + 1, 10 ** 38, 2 ** 64, 2 ** 128 - 1, 2 ** 128, M - 1, M // 3] + [10 ** k for k in range(17, 78, 3)] \
+        + [rng.randrange(M) for _ in range(30)] + [rng.randrange(10 ** rng.randint(1, 77)) for _ in range(30)]
+    for v in vals:
+        got = drv.call("u256_display", "%064x" % v)
+        if got != "ok " + str(v):
+            return {"call": "<U256 as Display>::fmt", "input": {"value": v}, "op": ["u256_display", "%064x" % v], "expected": "ok " + str(v), "observed": got}
+    return None
